@@ -506,3 +506,12 @@ PROPS['C10']['bounds_text'] += '; side B: grouping, kinds, packages, frontend an
 PROPS['C07']['quick'] = PROPS['C07']['quick'] + [sideb(['reject'])]
 PROPS['C07']['thorough'] = PROPS['C07']['thorough'] + [sideb(['reject', 'random_reject'])]
 PROPS['C07']['bounds_text'] += '; side B reject family: cycles closed by a function, struct, field provider or a binding, in direct, nested, inline and re-exporting sets, with the result on and off the cycle, through the real front end; the wire binary runs under a 900 s / 12 GB limit (60 s / 3 GB per package when searching for the culprit) and being stopped by it is a violation'
+
+# H_newset: the front end's merging of provider sets (processExpr -> processNewSet -> objectCache -> buildProviderMap ->
+# verifyAcyclic) on every argument list of <= 2 (3) items of a 19-item pool (providers, bindings, set variables, an alias,
+# inline sets); added after seeded changes S45 / S47, which sit in processNewSet, in front of H_bpm and H_acyclic
+for _p in ('C05', 'C07', 'C10', 'C11'):
+    PROPS[_p]['quick'] = PROPS[_p]['quick'] + [tspec('H_newset', args=2, real_typestring=1)]
+    PROPS[_p]['thorough'] = PROPS[_p]['thorough'] + [tspec('H_newset', args=3, real_typestring=1)]
+    PROPS[_p]['covers'] = dict(PROPS[_p].get('covers', {}), H_newset=['newset-accepted', 'newset-refused'])
+    PROPS[_p]['bounds_text'] += '; H_newset: wire.NewSet calls with every list of <=2 (3) arguments over a pool of 19 items (7 provider functions, 2 bindings, 4 set variables one of which aliases another, 6 inline sets incl. nested ones), real go/ast + go/types, oracle = reference model of the documented rules (multiplicity through nested sets, co-located bindings, cycles)'
